@@ -112,8 +112,14 @@ impl<C: Config, Q: Query> Snapshot<C, Q> {
 
         let timestamp = caller_information.timestamp();
         let query = query.clone();
+        let active_computation_guard =
+            caller_information.clone_active_computation_guard();
 
         async move {
+            // owned by the block: a cancelled caller leaves this block to a
+            // detached task, which must keep the input sessions out
+            let _active_computation_guard = active_computation_guard;
+
             let old_kind = self.query_kind().await;
             let existing_forward_edges = self.forward_edge_order().await;
 
